@@ -70,8 +70,15 @@ Proof.
 Qed.
 
 (* ================= one end of segment on the abstract state ================= *)
+(* the only segment is a normalized Windows drive letter: ".." pops it on neither side (task c01file5) *)
+Definition sole_nwdl (P : list (list N)) : bool :=
+  match P with [p0] => is_normalized_windows_drive_letter p0 | _ => false end.
+(* no ".." meets a drive-letter-shaped last segment - unless that segment is the sole normalized drive letter *)
+Definition fin_ok2 (segs : list (list N)) (cur : list N) : bool :=
+  fin_ok segs cur || (is_double_dot_segment cur && sole_nwdl segs).
+
 Definition fin_step_f (segs : list (list N)) (cur : list N) (ews : bool) : list (list N) * list N :=
-  if is_double_dot_segment cur then (removelast segs, [])
+  if is_double_dot_segment cur then (shorten_f segs, [])
   else if is_single_dot_segment cur then (segs, [])
   else if ews then (segs ++ [norm_first segs cur], []) else (segs, norm_first segs cur).
 
@@ -82,12 +89,17 @@ Proof.
   unfold last_is_wdl in H. cbn [rev app] in H. rewrite (nwdl_last_is_wdl p0 E) in H. discriminate H.
 Qed.
 
-Lemma fin_f_of_step segs cur sep : fin_ok segs cur = true ->
+Lemma fin_f_of_step segs cur sep :
   fin_f segs cur sep = if sep then fst (fin_step_f segs cur sep) else fst (fin_step_f segs cur sep) ++ [snd (fin_step_f segs cur sep)].
 Proof.
-  intros Hok. unfold fin_f, fin_step_f, fin_ok in *. destruct (is_double_dot_segment cur).
-  - cbn [andb] in Hok. apply negb_true_iff in Hok. rewrite (shorten_f_plain segs Hok). destruct sep; reflexivity.
+  unfold fin_f, fin_step_f. destruct (is_double_dot_segment cur).
+  - destruct sep; reflexivity.
   - destruct (is_single_dot_segment cur); destruct sep; reflexivity.
+Qed.
+
+Lemma sole_nwdl_shorten P : sole_nwdl P = true -> shorten_f P = P.
+Proof.
+  unfold sole_nwdl, shorten_f. destruct P as [|p0 [|p1 P']]; try discriminate. intros H. rewrite H. reflexivity.
 Qed.
 
 Lemma fin_step_f_sep_last segs B : snd (fin_step_f segs B true) = [].
@@ -104,7 +116,8 @@ Lemma fin_step_f_no_slash segs B ews : forallb no_slash segs = true -> no_slash 
   forallb no_slash (fst (fin_step_f segs B ews)) = true /\ no_slash (snd (fin_step_f segs B ews)) = true.
 Proof.
   intros Hs HB. unfold fin_step_f. destruct (is_double_dot_segment B).
-  - split; [apply no_slash_removelast; exact Hs | reflexivity].
+  - split; [|reflexivity]. cbn [fst]. unfold shorten_f. destruct segs as [|p0 [|p1 P']]; try (apply no_slash_removelast; exact Hs).
+    destruct (is_normalized_windows_drive_letter p0); [exact Hs | reflexivity].
   - destruct (is_single_dot_segment B); [split; [exact Hs | reflexivity]|].
     pose proof (norm_first_no_slash segs B HB) as HN.
     destruct ews; cbn [fst snd]; [|split; assumption].
@@ -126,12 +139,12 @@ Proof.
 Qed.
 
 Lemma finish_exact_f segs cur (ews : bool) hh :
-  forallb no_slash segs = true -> fin_ok segs cur = true ->
+  forallb no_slash segs = true -> fin_ok2 segs cur = true ->
   (hh && is_nil segs && is_windows_drive_letter cur) = false ->
   finish_segment dbg STFile ps (BsP segs ++ cur ++ (if ews then [47] else [])) (nlen (BsP segs)) ews hh
   = POk (BsP (fst (fin_step_f segs cur ews)) ++ snd (fin_step_f segs cur ews), hh).
 Proof.
-  intros Hsegs Hok Hhq. unfold fin_step_f, fin_ok in *. rewrite <- double_dot_agree in *. rewrite <- single_dot_agree.
+  intros Hsegs Hok Hhq. unfold fin_step_f, fin_ok2, fin_ok in *. rewrite <- double_dot_agree in *. rewrite <- single_dot_agree.
   set (s1 := BsP segs ++ cur ++ (if ews then [47] else [])).
   assert (slice_o s1 (nlen (BsP segs)) (if ews then nlen s1 - 1 else nlen s1) = Some cur) as Hslice.
   { unfold s1. destruct ews.
@@ -145,7 +158,7 @@ Proof.
   unfold finish_segment. rewrite Hslice. cbn [of_option pbind].
   destruct (is_double_dot cur) eqn:Edd.
   - (* double dot *)
-    cbn [andb] in Hok. apply negb_true_iff in Hok.
+    cbn [andb] in Hok.
     assert ((if dbg then match (if 1 <=? nlen (BsP segs) then nnth s1 (nlen (BsP segs) - 1) else None) with
                          | Some b => passert (b =? 47) | None => PPanic end else POk tt) = POk tt) as Hdbg.
     { destruct dbg; [|reflexivity]. pose proof (Bs_len_ge pre segs) as Hl.
@@ -154,6 +167,37 @@ Proof.
       replace (nlen X + nlen [47] - 1) with (nlen X) by (unfold nlen; cbn [length]; lia).
       rewrite nnth_app_last. reflexivity. }
     rewrite Hdbg. cbn [pbind fst snd]. rewrite Htr, Hends. cbn [andb].
+    destruct (sole_nwdl segs) eqn:Esole.
+    { (* the sole segment is a normalized drive letter: nothing is popped on either side *)
+      rewrite (sole_nwdl_shorten segs Esole).
+      destruct segs as [|t [|t1 r1]]; try discriminate Esole. cbn [sole_nwdl] in Esole. rewrite <- is_nwdl_agree in Esole.
+      cbn [forallb] in Hsegs. rewrite andb_true_r in Hsegs.
+      assert (BsP [t] = (pre ++ [47]) ++ t ++ [47]) as EB by (unfold Bs, segs_text; cbn [map concat]; rewrite app_nil_r; reflexivity).
+      assert (nlen (BsP [t]) = ps + nlen t + 2) as LB by (rewrite EB, !nlen_app; unfold nlen at 2 4; cbn [length]; lia).
+      assert (last_slash_can_be_removed (BsP [t]) ps = false) as Hl.
+      { unfold last_slash_can_be_removed. rewrite LB. rewrite EB.
+        replace (ps + nlen t + 2 - 1) with (nlen ((pre ++ [47]) ++ t)) by (rewrite !nlen_app; unfold nlen at 2; cbn [length]; lia).
+        rewrite app_assoc, nfirstn_app_len. rewrite <- app_assoc. cbn [app].
+        rewrite (rfind_app_last 47 pre t) by (rewrite <- no_slash_no_byte; exact Hsegs).
+        replace (ps <=? ps) with true by lia. cbn [andb].
+        rewrite <- !app_assoc. rewrite nskipn_app_len. cbn [app].
+        unfold path_starts_with_wdl. cbn [is_path_end]. replace (47 =? 47) with true by reflexivity. cbn [orb andb].
+        rewrite (nwdl_last_is_wdl t Esole). reflexivity. }
+      rewrite Hl.
+      assert (Parser.shorten_path STFile ps (BsP [t]) = POk (BsP [t])) as Hsh.
+      { unfold Parser.shorten_path, pop_path. rewrite LB.
+        replace (ps + nlen t + 2 =? ps) with false by lia. cbn [st_is_file andb].
+        assert (nskipn ps (BsP [t]) = (47 :: t) ++ 47 :: []) as Esk.
+        { rewrite EB. rewrite <- !app_assoc. rewrite nskipn_app_len. reflexivity. }
+        rewrite Esk. cbn [app]. rewrite (nwdl_head_not_alpha 47 (t ++ [47]) eq_refl).
+        replace (ps <? ps + nlen t + 2) with true by lia.
+        change (47 :: t ++ [47]) with ((47 :: t) ++ 47 :: []).
+        rewrite (rfind_app_last 47 (47 :: t) []) by reflexivity.
+        replace (ps + nlen (47 :: t) + 1) with (nlen (BsP [t])) by (rewrite LB, nlen_cons; lia).
+        rewrite nskipn_all by lia. replace (is_normalized_wdl []) with false by reflexivity. unfold truncate.
+        rewrite nfirstn_all by lia. reflexivity. }
+      rewrite Hsh. cbn [pbind]. rewrite Hends. rewrite andb_false_r. rewrite app_nil_r. reflexivity. }
+    rewrite orb_false_r in Hok. apply negb_true_iff in Hok. rewrite (shorten_f_plain segs Hok).
     unfold last_is_wdl in Hok.
     destruct (rev segs) as [|t r] eqn:Er.
     + (* no segment yet: nothing to pop *)
@@ -274,10 +318,10 @@ Proof.
 Qed.
 
 (* ================= the path loop, exactly ================= *)
-(* (i) no ".." meets a drive-letter-shaped last segment, (ii) no drive letter becomes the first segment of a URL
-   with a host *)
+(* (i) no ".." meets a drive-letter-shaped last segment - unless it is the sole segment and a normalized drive letter,
+   which neither side pops (fin_ok2) -, (ii) no drive letter becomes the first segment of a URL with a host *)
 Definition fin_okf (hh : bool) (P : list (list N)) (B : list N) : bool :=
-  fin_ok P B && negb (hh && is_nil P && is_windows_drive_letter B).
+  fin_ok2 P B && negb (hh && is_nil P && is_windows_drive_letter B).
 
 Fixpoint fpath_ok (hh : bool) (t : list N) (P : list (list N)) (B : list N) : bool :=
   match t with
@@ -374,12 +418,12 @@ Proof.
     pose proof (finish_exact_f pre dbg segs (cur ++ enc pend) true hh Hsegs Hok1 Hq) as Hf.
     rewrite <- app_assoc. rewrite Hf. cbn [pbind]. rewrite fin_step_f_sep_last, app_nil_r.
     destruct (fin_step_f_no_slash segs (cur ++ enc pend) true Hsegs Hn') as [Hs1 _].
-    rewrite (fin_f_of_step _ _ true Hok1). split; [rewrite app_nil_r; reflexivity | exact Hs1]. }
+    rewrite (fin_f_of_step _ _ true). split; [rewrite app_nil_r; reflexivity | exact Hs1]. }
   induction l as [|c r IH]; intros segs cur pend hh Hu Hp Hsegs Hn Hok.
   - cbn [ntnl filter fpath_ok spath_f fst snd cbb_rest] in *.
     eexists. eexists. split; [apply (Hend [] segs cur pend hh I Hp Hsegs Hn Hok)|].
     unfold fin_okf in Hok. apply andb_true_iff in Hok. destruct Hok as [Hok _].
-    split; [apply (fin_f_of_step _ _ false Hok) | reflexivity].
+    split; [apply (fin_f_of_step _ _ false) | reflexivity].
   - apply usv_cons in Hu. destruct Hu as [Huc Hur]. cbn [cbb_rest].
     destruct (is_tnl c) eqn:Et.
     + rewrite ntnl_cons_tnl in * by exact Et.
@@ -398,7 +442,7 @@ Proof.
         cbn [fst snd].
         eexists. eexists. split; [apply (Hend (c :: r) segs cur pend hh (conj Eq Et) Hp Hsegs Hn Hok)|].
         unfold fin_okf in Hok. apply andb_true_iff in Hok. destruct Hok as [Hok _].
-        split; [apply (fin_f_of_step _ _ false Hok)|]. rewrite ntnl_cons by exact Et. reflexivity.
+        split; [apply (fin_f_of_step _ _ false)|]. rewrite ntnl_cons by exact Et. reflexivity.
       * destruct (is_sl c) eqn:Esl.
         -- cbn [fpath_ok spath_f] in *. rewrite Esl in *.
            apply andb_true_iff in Hok. destruct Hok as [Hok1 Hok2].
